@@ -154,6 +154,7 @@ def project_obs(path, rnd):
         return True
     pat = pats[0]
     s0 = snap_project(p)
+    first_save = save_bytes(p)          # the object has been serialised once before it is edited
     n = pat.data[0][0]
     n.vel = v
     n.ctl = c
@@ -163,7 +164,7 @@ def project_obs(path, rnd):
     s1 = snap_project(p)
     q = rt(p)
     for (k, a), (_, b) in zip(s0, s1):
-        if not (k.endswith(".raw_data") or k.endswith(".x")) and not (a == b):
+        if not (k.endswith(".raw_data") or k.endswith(".cells") or k.endswith(".x")) and not (a == b):
             return False
     return same(s1, snap_project(q))
 """
